@@ -92,7 +92,12 @@ Record input := mkInput {
   quant_has_str : bool;         (* a str cell in a quantitative column of X *)
   ordinal_unknown_value : bool; (* a value of an ordinal column of X is absent from its ranking *)
   sort_by_ok : bool;            (* sort_by is implemented for the carver type *)
-  has_ordinal : bool            (* configuration: the object was given an ordinal feature *)
+  has_ordinal : bool;           (* configuration: the object was given an ordinal feature *)
+  ydev_given : bool;            (* y_dev is not None (meaningful when dev_given) *)
+  dev_index_same_len : bool;    (* len(y_dev) == len(X_dev) *)
+  ydev_classes_ok : bool;       (* BinaryCarver: y_dev holds exactly 0 and 1; MulticlassCarver: y_dev
+                                   holds exactly the classes of y; true for ContinuousCarver *)
+  ydev_has_str : bool           (* some value of y_dev is a str *)
 }.
 
 (* ---- objects, steps, runs --------------------------------------------------------------- *)
@@ -167,6 +172,18 @@ Definition c_dev_cols (_ : bool) (i : input) := negb (dev_given i) || dev_column
 Definition c_ydev_series (_ : bool) (i : input) := negb (dev_given i) || ydev_is_series i.
 Definition c_ydev_nan (_ : bool) (i : input) := negb (dev_given i) || negb (ydev_has_nan i).
 Definition c_dev_idx (_ : bool) (i : input) := negb (dev_given i) || dev_index_matches i.
+(* current tree: the checks on y_dev are skipped when y_dev is None *)
+Definition ydev_checked (i : input) : bool := dev_given i && ydev_given i.
+Definition c_ydev_series' (_ : bool) (i : input) := negb (ydev_checked i) || ydev_is_series i.
+Definition c_ydev_nan' (_ : bool) (i : input) := negb (ydev_checked i) || negb (ydev_has_nan i).
+Definition c_dev_idx_len (_ : bool) (i : input) := negb (ydev_checked i) || dev_index_same_len i.
+Definition c_dev_idx' (_ : bool) (i : input) := negb (ydev_checked i) || dev_index_matches i.
+(* b747a9b BinaryCarver: y_dev binary too; MulticlassCarver: classes of y and y_dev coincide *)
+Definition c_ydev_classes (_ : bool) (i : input) := negb (ydev_checked i) || ydev_classes_ok i.
+(* 9e3db28 BaseCarver._prepare_data: `if X_dev is not None: assert y_dev is not None` *)
+Definition k_ydev_given (_ : bool) (i : input) := negb (dev_given i) || ydev_given i.
+(* 9e3db28 ContinuousCarver._prepare_data: no str in y_dev *)
+Definition k_ydev_no_str (_ : bool) (i : input) := negb (ydev_checked i) || negb (ydev_has_str i).
 (* carvers *)
 Definition c_y_given (_ : bool) (i : input) := y_given i.
 Definition c_y_01 (_ : bool) (i : input) := y_is_01 i.
@@ -247,7 +264,8 @@ Definition init_before {S : Type} (w : S -> input -> S) (c : cls) : list (step S
 Definition pd {S : Type} : list (step S) :=
   [Check c_x_frame; Check c_cols; Check c_cols; Check c_y_series; Check c_y_nan; Check c_idx_len; Check c_idx].
 Definition pd_dev {S : Type} : list (step S) :=
-  [Check c_xdev_frame; Check c_dev_cols; Check c_dev_cols; Check c_ydev_series; Check c_ydev_nan; Check c_dev_idx].
+  [Check c_xdev_frame; Check c_dev_cols; Check c_dev_cols; Check c_ydev_series'; Check c_ydev_nan';
+   Check c_dev_idx_len; Check c_dev_idx'].
 
 (* every fit starts with _check_is_not_fitted(); BaseDiscretizer.fit still ends the call *)
 Definition fit_current {S : Type} (w : S -> input -> S) (c : cls) : list (step S) :=
@@ -269,16 +287,16 @@ Definition fit_current {S : Type} (w : S -> input -> S) (c : cls) : list (step S
       pd ++ [Crash k_x_usable; Check c_quant_numeric; Write w] ++ base_fit w
   | KBinary =>
       pd ++ pd_dev ++
-      [Check c_y_given; Check c_y_01; Check c_two_classes; Crash k_x_usable;
-       Check c_ordinal_known; Check c_quant_numeric; Write w; Write w] ++ base_fit w
+      [Check c_y_given; Check k_ydev_given; Check c_y_01; Check c_two_classes; Check c_ydev_classes;
+       Crash k_x_usable; Check c_ordinal_known; Check c_quant_numeric; Write w; Write w] ++ base_fit w
   | KContinuousCarver =>
       pd ++ pd_dev ++
-      [Check c_y_given; Check c_y_no_str; Check c_many_classes; Crash k_x_usable;
-       Check c_ordinal_known; Check c_quant_numeric; Write w; Write w] ++ base_fit w
+      [Check c_y_given; Check k_ydev_given; Check c_y_no_str; Check c_many_classes; Check k_ydev_no_str;
+       Crash k_x_usable; Check c_ordinal_known; Check c_quant_numeric; Write w; Write w] ++ base_fit w
   | KMulticlass =>
       pd ++ pd_dev ++
-      [Check c_y_given; Check c_many_classes; Crash k_x_usable; Check c_multiclass_inner_orders;
-       Check c_ordinal_known; Check c_quant_numeric;
+      [Check c_y_given; Check k_ydev_given; Check c_many_classes; Check c_ydev_classes; Crash k_x_usable;
+       Check c_multiclass_inner_orders; Check c_ordinal_known; Check c_quant_numeric;
        Write w; SetFitted false; Write w] ++ base_fit w
   end.
 
@@ -313,18 +331,23 @@ Definition exhibits (c : cls) (e : entry) (m : mal) (f : bool) (i : input) : boo
   | MNone => false
   | MXNotFrame => negb (x_is_frame i) || (dev_side c e i && negb (xdev_is_frame i))
   | MYNotSeries => (y_given i && negb (y_is_series i)) || (is_carver c && negb (entry_eqb e ETransform) && negb (y_given i))
-                   || (dev_side c e i && negb (ydev_is_series i))
-  | MYNaN => (y_given i && y_has_nan i) || (dev_side c e i && ydev_has_nan i)
-  | MIndexMismatch => (y_given i && negb (index_matches i)) || (dev_side c e i && negb (dev_index_matches i))
+                   || (dev_side c e i && (negb (ydev_given i) || negb (ydev_is_series i)))
+  | MYNaN => (y_given i && y_has_nan i) || (dev_side c e i && ydev_given i && ydev_has_nan i)
+  | MIndexMismatch => (y_given i && negb (index_matches i))
+                      || (dev_side c e i && ydev_given i && negb (dev_index_matches i))
   | MMissingCol => negb (columns_present i) || (dev_side c e i && negb (dev_columns_present i))
   | MNClasses => match c with
                  | KBinary => negb (y_is_01 i && Nat.eqb (n_classes i) 2)
-                 | KContinuousCarver | KMulticlass => negb (Nat.ltb 2 (n_classes i))
+                              || (dev_side c e i && ydev_given i && negb (ydev_classes_ok i))
+                 | KMulticlass => negb (Nat.ltb 2 (n_classes i))
+                                  || (dev_side c e i && ydev_given i && negb (ydev_classes_ok i))
+                 | KContinuousCarver => negb (Nat.ltb 2 (n_classes i))
                  | _ => false
                  end
   | MYStr => match c with
-             | KBinary => y_has_str i && negb (y_is_01 i)
-             | KContinuousCarver => y_has_str i
+             | KBinary => (y_has_str i && negb (y_is_01 i))
+                          || (dev_side c e i && ydev_given i && ydev_has_str i && negb (ydev_classes_ok i))
+             | KContinuousCarver => y_has_str i || (dev_side c e i && ydev_given i && ydev_has_str i)
              | _ => false
              end
   | MFeatureOverlap => feature_overlap i
@@ -377,66 +400,80 @@ Definition valid_input (c : cls) (with_dev : bool) (ordinal : bool) : input :=
           (is_carver c && with_dev) true true false true true
           (match c with KContinuousCarver => 9 | KMulticlass => 3 | _ => 2 end)
           (match c with KContinuousCarver | KMulticlass => false | _ => true end)
-          false false false false false true (has_ordinal_features c && ordinal).
+          false false false false false true (has_ordinal_features c && ordinal)
+          true true true false.
 
 (* single-fault inputs used as witnesses *)
 Definition set_x_not_frame (i : input) :=
   mkInput false false (y_given i) (y_is_series i) (y_has_nan i) (index_matches i) (index_same_len i)
           (columns_present i) (dev_given i) (xdev_is_frame i) (ydev_is_series i) (ydev_has_nan i)
           (dev_index_matches i) (dev_columns_present i) (n_classes i) (y_is_01 i) (y_has_str i) (y_all_str i)
-          (feature_overlap i) (quant_has_str i) (ordinal_unknown_value i) (sort_by_ok i) (has_ordinal i).
+          (feature_overlap i) (quant_has_str i) (ordinal_unknown_value i) (sort_by_ok i) (has_ordinal i)
+          (ydev_given i) (dev_index_same_len i) (ydev_classes_ok i) (ydev_has_str i).
 Definition set_x_none (i : input) :=
   mkInput false true (y_given i) (y_is_series i) (y_has_nan i) (index_matches i) (index_same_len i)
           (columns_present i) (dev_given i) (xdev_is_frame i) (ydev_is_series i) (ydev_has_nan i)
           (dev_index_matches i) (dev_columns_present i) (n_classes i) (y_is_01 i) (y_has_str i) (y_all_str i)
-          (feature_overlap i) (quant_has_str i) (ordinal_unknown_value i) (sort_by_ok i) (has_ordinal i).
+          (feature_overlap i) (quant_has_str i) (ordinal_unknown_value i) (sort_by_ok i) (has_ordinal i)
+          (ydev_given i) (dev_index_same_len i) (ydev_classes_ok i) (ydev_has_str i).
 Definition set_y_not_series (i : input) :=
   mkInput (x_is_frame i) (x_is_none i) (y_given i) false (y_has_nan i) (index_matches i) (index_same_len i)
           (columns_present i) (dev_given i) (xdev_is_frame i) (ydev_is_series i) (ydev_has_nan i)
           (dev_index_matches i) (dev_columns_present i) (n_classes i) (y_is_01 i) (y_has_str i) (y_all_str i)
-          (feature_overlap i) (quant_has_str i) (ordinal_unknown_value i) (sort_by_ok i) (has_ordinal i).
+          (feature_overlap i) (quant_has_str i) (ordinal_unknown_value i) (sort_by_ok i) (has_ordinal i)
+          (ydev_given i) (dev_index_same_len i) (ydev_classes_ok i) (ydev_has_str i).
 Definition set_y_nan (i : input) :=
   mkInput (x_is_frame i) (x_is_none i) (y_given i) (y_is_series i) true (index_matches i) (index_same_len i)
           (columns_present i) (dev_given i) (xdev_is_frame i) (ydev_is_series i) (ydev_has_nan i)
           (dev_index_matches i) (dev_columns_present i) (n_classes i) (y_is_01 i) (y_has_str i) (y_all_str i)
-          (feature_overlap i) (quant_has_str i) (ordinal_unknown_value i) (sort_by_ok i) (has_ordinal i).
+          (feature_overlap i) (quant_has_str i) (ordinal_unknown_value i) (sort_by_ok i) (has_ordinal i)
+          (ydev_given i) (dev_index_same_len i) (ydev_classes_ok i) (ydev_has_str i).
 Definition set_index_mismatch (same_len : bool) (i : input) :=
   mkInput (x_is_frame i) (x_is_none i) (y_given i) (y_is_series i) (y_has_nan i) false same_len
           (columns_present i) (dev_given i) (xdev_is_frame i) (ydev_is_series i) (ydev_has_nan i)
           (dev_index_matches i) (dev_columns_present i) (n_classes i) (y_is_01 i) (y_has_str i) (y_all_str i)
-          (feature_overlap i) (quant_has_str i) (ordinal_unknown_value i) (sort_by_ok i) (has_ordinal i).
+          (feature_overlap i) (quant_has_str i) (ordinal_unknown_value i) (sort_by_ok i) (has_ordinal i)
+          (ydev_given i) (dev_index_same_len i) (ydev_classes_ok i) (ydev_has_str i).
 Definition set_missing_col (i : input) :=
   mkInput (x_is_frame i) (x_is_none i) (y_given i) (y_is_series i) (y_has_nan i) (index_matches i) (index_same_len i)
           false (dev_given i) (xdev_is_frame i) (ydev_is_series i) (ydev_has_nan i)
           (dev_index_matches i) (dev_columns_present i) (n_classes i) (y_is_01 i) (y_has_str i) (y_all_str i)
-          (feature_overlap i) (quant_has_str i) (ordinal_unknown_value i) (sort_by_ok i) (has_ordinal i).
+          (feature_overlap i) (quant_has_str i) (ordinal_unknown_value i) (sort_by_ok i) (has_ordinal i)
+          (ydev_given i) (dev_index_same_len i) (ydev_classes_ok i) (ydev_has_str i).
 Definition set_y_mixed_str (i : input) :=
   mkInput (x_is_frame i) (x_is_none i) (y_given i) (y_is_series i) (y_has_nan i) (index_matches i) (index_same_len i)
           (columns_present i) (dev_given i) (xdev_is_frame i) (ydev_is_series i) (ydev_has_nan i)
           (dev_index_matches i) (dev_columns_present i) (n_classes i) (y_is_01 i) true false
-          (feature_overlap i) (quant_has_str i) (ordinal_unknown_value i) (sort_by_ok i) (has_ordinal i).
+          (feature_overlap i) (quant_has_str i) (ordinal_unknown_value i) (sort_by_ok i) (has_ordinal i)
+          (ydev_given i) (dev_index_same_len i) (ydev_classes_ok i) (ydev_has_str i).
 Definition set_overlap (i : input) :=
   mkInput (x_is_frame i) (x_is_none i) (y_given i) (y_is_series i) (y_has_nan i) (index_matches i) (index_same_len i)
           (columns_present i) (dev_given i) (xdev_is_frame i) (ydev_is_series i) (ydev_has_nan i)
           (dev_index_matches i) (dev_columns_present i) (n_classes i) (y_is_01 i) (y_has_str i) (y_all_str i)
-          true (quant_has_str i) (ordinal_unknown_value i) (sort_by_ok i) (has_ordinal i).
+          true (quant_has_str i) (ordinal_unknown_value i) (sort_by_ok i) (has_ordinal i)
+          (ydev_given i) (dev_index_same_len i) (ydev_classes_ok i) (ydev_has_str i).
 Definition set_quant_str (i : input) :=
   mkInput (x_is_frame i) (x_is_none i) (y_given i) (y_is_series i) (y_has_nan i) (index_matches i) (index_same_len i)
           (columns_present i) (dev_given i) (xdev_is_frame i) (ydev_is_series i) (ydev_has_nan i)
           (dev_index_matches i) (dev_columns_present i) (n_classes i) (y_is_01 i) (y_has_str i) (y_all_str i)
-          (feature_overlap i) true (ordinal_unknown_value i) (sort_by_ok i) (has_ordinal i).
+          (feature_overlap i) true (ordinal_unknown_value i) (sort_by_ok i) (has_ordinal i)
+          (ydev_given i) (dev_index_same_len i) (ydev_classes_ok i) (ydev_has_str i).
 Definition set_ordinal_unknown (i : input) :=
   mkInput (x_is_frame i) (x_is_none i) (y_given i) (y_is_series i) (y_has_nan i) (index_matches i) (index_same_len i)
           (columns_present i) (dev_given i) (xdev_is_frame i) (ydev_is_series i) (ydev_has_nan i)
           (dev_index_matches i) (dev_columns_present i) (n_classes i) (y_is_01 i) (y_has_str i) (y_all_str i)
-          (feature_overlap i) (quant_has_str i) true (sort_by_ok i) true.
+          (feature_overlap i) (quant_has_str i) true (sort_by_ok i) true
+          (ydev_given i) (dev_index_same_len i) (ydev_classes_ok i) (ydev_has_str i).
 
 Definition set_one_class (i : input) :=
-  mkInput (x_is_frame i) (x_is_none i) (y_given i) (y_is_series i) (y_has_nan i) (index_matches i) (index_same_len i) (columns_present i) (dev_given i) (xdev_is_frame i) (ydev_is_series i) (ydev_has_nan i) (dev_index_matches i) (dev_columns_present i) 1 false (y_has_str i) (y_all_str i) (feature_overlap i) (quant_has_str i) (ordinal_unknown_value i) (sort_by_ok i) (has_ordinal i).
+  mkInput (x_is_frame i) (x_is_none i) (y_given i) (y_is_series i) (y_has_nan i) (index_matches i) (index_same_len i) (columns_present i) (dev_given i) (xdev_is_frame i) (ydev_is_series i) (ydev_has_nan i) (dev_index_matches i) (dev_columns_present i) 1 false (y_has_str i) (y_all_str i) (feature_overlap i) (quant_has_str i) (ordinal_unknown_value i) (sort_by_ok i) (has_ordinal i)
+          (ydev_given i) (dev_index_same_len i) (ydev_classes_ok i) (ydev_has_str i).
 Definition set_y_all_str (i : input) :=
-  mkInput (x_is_frame i) (x_is_none i) (y_given i) (y_is_series i) (y_has_nan i) (index_matches i) (index_same_len i) (columns_present i) (dev_given i) (xdev_is_frame i) (ydev_is_series i) (ydev_has_nan i) (dev_index_matches i) (dev_columns_present i) (n_classes i) false true true (feature_overlap i) (quant_has_str i) (ordinal_unknown_value i) (sort_by_ok i) (has_ordinal i).
+  mkInput (x_is_frame i) (x_is_none i) (y_given i) (y_is_series i) (y_has_nan i) (index_matches i) (index_same_len i) (columns_present i) (dev_given i) (xdev_is_frame i) (ydev_is_series i) (ydev_has_nan i) (dev_index_matches i) (dev_columns_present i) (n_classes i) false true true (feature_overlap i) (quant_has_str i) (ordinal_unknown_value i) (sort_by_ok i) (has_ordinal i)
+          (ydev_given i) (dev_index_same_len i) (ydev_classes_ok i) (ydev_has_str i).
 Definition set_bad_sort_by (i : input) :=
-  mkInput (x_is_frame i) (x_is_none i) (y_given i) (y_is_series i) (y_has_nan i) (index_matches i) (index_same_len i) (columns_present i) (dev_given i) (xdev_is_frame i) (ydev_is_series i) (ydev_has_nan i) (dev_index_matches i) (dev_columns_present i) (n_classes i) (y_is_01 i) (y_has_str i) (y_all_str i) (feature_overlap i) (quant_has_str i) (ordinal_unknown_value i) false (has_ordinal i).
+  mkInput (x_is_frame i) (x_is_none i) (y_given i) (y_is_series i) (y_has_nan i) (index_matches i) (index_same_len i) (columns_present i) (dev_given i) (xdev_is_frame i) (ydev_is_series i) (ydev_has_nan i) (dev_index_matches i) (dev_columns_present i) (n_classes i) (y_is_01 i) (y_has_str i) (y_all_str i) (feature_overlap i) (quant_has_str i) (ordinal_unknown_value i) false (has_ordinal i)
+          (ydev_given i) (dev_index_same_len i) (ydev_classes_ok i) (ydev_has_str i).
 
 Definition inject (m : mal) (i : input) : input :=
   match m with
@@ -464,8 +501,22 @@ Definition gap_result_before (c : cls) (e : entry) (m : mal) : result * obj nat 
 
 (* crash points inside guarded triples (a variant of the malformation escapes the assertion):
    X is None — _prepare_data skips everything `if X is not None`, the first use of X raises *)
+Definition set_ydev_missing (i : input) :=
+  mkInput (x_is_frame i) (x_is_none i) (y_given i) (y_is_series i) (y_has_nan i) (index_matches i) (index_same_len i) (columns_present i) (dev_given i) (xdev_is_frame i) (ydev_is_series i) (ydev_has_nan i) (dev_index_matches i) (dev_columns_present i) (n_classes i) (y_is_01 i) (y_has_str i) (y_all_str i) (feature_overlap i) (quant_has_str i) (ordinal_unknown_value i) (sort_by_ok i) (has_ordinal i)
+          false (dev_index_same_len i) (ydev_classes_ok i) (ydev_has_str i).
+Definition set_ydev_str (i : input) :=
+  mkInput (x_is_frame i) (x_is_none i) (y_given i) (y_is_series i) (y_has_nan i) (index_matches i) (index_same_len i) (columns_present i) (dev_given i) (xdev_is_frame i) (ydev_is_series i) (ydev_has_nan i) (dev_index_matches i) (dev_columns_present i) (n_classes i) (y_is_01 i) (y_has_str i) (y_all_str i) (feature_overlap i) (quant_has_str i) (ordinal_unknown_value i) (sort_by_ok i) (has_ordinal i)
+          (ydev_given i) (dev_index_same_len i) (ydev_classes_ok i) true.
+
+(* X is None (every class) *)
 Definition crash_gap_witnesses : list (cls * entry * mal * input) :=
   map (fun c => (c, EFit, MXNotFrame, set_x_none (valid_input c false true))) all_cls.
+(* repaired by 9e3db28: X_dev given without y_dev (the three carvers), a str in the y_dev of a
+   ContinuousCarver are now rejected with AssertionError *)
+Definition dev_target_witnesses : list (cls * entry * mal * input) :=
+  map (fun c => (c, EFit, MYNotSeries, set_ydev_missing (valid_input c true true)))
+      [KBinary; KContinuousCarver; KMulticlass]
+  ++ [(KContinuousCarver, EFit, MYStr, set_ydev_str (valid_input KContinuousCarver true true))].
 (* before the fix commits: also y shorter than X, a continuous target mixing str and numbers *)
 Definition crash_gap_witnesses_before : list (cls * entry * mal * input) :=
   flat_map (fun c =>
